@@ -163,6 +163,69 @@ def scn_quiescent(ctx):
     return True
 
 
+def scn_selfcancel(ctx):
+    """The callable, running inline on a synchronous base, calls cancel() on its own future (and a
+    second time after a first failed attempt, for retry layers).  It is running: cancel() returns
+    False, raises nothing, and the future completes with the callable's own outcome."""
+    from more_executors import Executors
+    p = ctx.params
+    layer = p["layer"]
+    ev = ctx.ev
+    holder = {}
+    seen = []
+    import threading
+    have = threading.Event()
+
+    def fn():
+        have.wait(50)
+        f_ = holder.get("f")
+        if f_ is not None:
+            try:
+                seen.append(("returned", f_.cancel()))
+            except Exception as x:  # noqa
+                seen.append(("raised", x))
+        return "value"
+
+    base = Executors.sync()
+    if layer == "retry":
+        ex = base.with_retry(max_attempts=2, sleep=0.5)
+    elif layer == "map":
+        ex = base.with_map(lambda x: x)
+    elif layer == "flat_map":
+        from more_executors.futures import f_return
+        ex = base.with_flat_map(lambda x: f_return(x))
+    elif layer == "throttle":
+        ex = base.with_throttle(2)
+    elif layer == "timeout":
+        ex = base.with_timeout(1000)
+    elif layer == "poll":
+        ex = base.with_poll(lambda ds: [d.yield_result(d.result) for d in ds], default_interval=1.0)
+    else:
+        ex = base.with_cancel_on_shutdown()
+
+    def client():
+        # (layers with a worker thread run the callable there, after submit() returned)
+        holder["f"] = ex.submit(fn)
+        have.set()
+
+    c = spawn("client", client)
+    c.join(BIG)
+    f = holder.get("f")
+    if not ctx.check("submit-returns", f is not None, "submit() did not return a future"):
+        return
+    wait_done(f, sched.now() + 50)
+    for kind, v in seen:
+        ctx.check("cancel-raises-nothing", kind == "returned", "%s: cancel() from inside the running callable raised %r" % (layer, v))
+        if kind == "returned":
+            ctx.check("cancel-refused-while-running", v is False, "%s: cancel() from inside the running callable returned %r" % (layer, v))
+    if seen and all(k == "returned" and v is False for k, v in seen):
+        ctx.check("completes-after-refused-cancel", outcome(f) == ("value", "value"), "%s: outcome %r" % (layer, outcome(f)))
+    if seen:
+        ctx.reach("self-cancel")
+    ex.shutdown(wait=True)
+    return True
+
+
 ENT = ["map", "flat_map", "timeout", "retry", "poll", "throttle", "cancel_on_shutdown"]
 STK = ["stack:retry+map", "stack:map+retry", "stack:throttle+retry", "stack:retry+throttle", "stack:timeout+retry",
        "stack:retry+poll", "stack:poll+retry", "stack:retry+retry", "stack:throttle+map", "stack:flat_map+retry"]
@@ -173,7 +236,7 @@ ASSUMPTIONS = ["the callable fails on its first `fails` invocations (Boom) so th
                "'running' = the callable has started and not ended for the whole duration of the cancel() call"]
 BOUNDS_TEXT = {"quick": "map/flat_map entries also with a scheduling point inside the user function; 7 executor entries + 11 f_* + 10 two-layer stacks over a manual delegate + 4 stacks over thread_pool(1); 1-2 cancellers x 1-2 calls; P<=1",
                "thorough": "2 cancellers x 2 calls; P<=2"}
-MUST_REACH = {"*": ["cancel-true", "cancel-false", "retry-cancel-checked", "cancel-while-running", "propagation-checked", "quiescent-cancel"]}
+MUST_REACH = {"*": ["cancel-true", "cancel-false", "retry-cancel-checked", "cancel-while-running", "propagation-checked", "quiescent-cancel", "self-cancel"]}
 BUDGET = {"quick": 120.0, "thorough": 600.0}
 
 
@@ -192,6 +255,8 @@ def plan(tier, seed):
         items.append(dict(scenario="cancel", params=dict(entry=n, cancellers=1, calls=1, falsy_futures=True), bounds=dict(P=1)))
         items.append(dict(scenario="quiescent", params=dict(entry=n), bounds=dict(P=0)))
         items.append(dict(scenario="quiescent", params=dict(entry=n, falsy_futures=True), bounds=dict(P=0)))
+    for ly in ("retry", "map", "flat_map", "throttle", "timeout", "poll", "cancel_on_shutdown"):
+        items.append(dict(scenario="selfcancel", params=dict(layer=ly), bounds=dict(P=0 if q else 1)))
     for n in STK:
         items.append(dict(scenario="cancel", params=dict(entry=n, cancellers=1, calls=2 if not q else 1), bounds=dict(P=0 if q else 1)))
     for n in POOL:
